@@ -13,6 +13,8 @@ INVARIANT LawToleranceMonotone
 INVARIANT LawBoxes
 INVARIANT LawStudentFault
 INVARIANT LawAuthorFault
+INVARIANT LawInexactSubmission
+INVARIANT LawInexactAuthor
 INVARIANT LawNeverBothVerdictAndError
 INVARIANT LawIndexSymmetric
 INVARIANT LawIndexCount
